@@ -8,6 +8,7 @@ CONSTANTS
     MaxConc = 2
     MaxObj = 3
     SameMp = FALSE
+    OneMount = FALSE
     AllowNoVerif = TRUE
     DisableVerif = FALSE
     NoPrefetch = FALSE
